@@ -172,4 +172,108 @@ def serve {Ident : Type} (f : Flavor) (routes : List Entry) (arm : StartArm) (c 
     (path : List String) (m : Method) : LiveResp :=
   serveWith IpaVerif.Generated.Routes.tlsSetup f routes arm c path m
 
+/-! ## The presented certificate chain (`ClientCertRecognizingAcceptor::accept`, suite `c20_live` op `c20.chain`)
+
+A TLS client sends a *list* of certificates. rustls/webpki validate the FIRST one (the end-entity
+certificate) against the trust anchors and check the client's CertificateVerify signature with its
+key; the remaining entries are only candidate intermediates — bytes chosen by the caller.
+`peer_certificates()` returns the whole list as sent. -/
+
+/-- `NetworkConfig::identify_cert`: no certificate ⇒ `none` (the early `cert?`); otherwise the identity
+of the first configured peer whose pinned certificate is byte-identical. `peers` = `zip(identities,
+peers.certificate)`. -/
+def identifyCert {Cert Ident : Type} [DecidableEq Cert] (peers : List (Ident × Option Cert)) :
+    Option Cert → Option Ident
+  | none => none
+  | some c => (peers.find? (fun p => p.2 == some c)).map (·.1)
+
+/-- `accept` as written: `identify_cert(peer_certificates().and_then(<[_]>::first))`. -/
+def acceptFirst {Cert Ident : Type} (identify : Option Cert → Option Ident) (presented : List Cert) : Option Ident :=
+  identify presented.head?
+
+/-- NOT the code — the "tolerant" variant `peer_certificates().into_iter().flatten().find_map(|c|
+identify_cert(Some(c)))`: the first certificate anywhere in the chain that is on file. -/
+def acceptAny {Cert Ident : Type} (identify : Option Cert → Option Ident) (presented : List Cert) : Option Ident :=
+  presented.findSome? (fun c => identify (some c))
+
+/-- What the rustls handshake leaves the server with (`peer_certificates()`), or `none` if it is
+aborted. `keyOf c` = the key certified by `c`; `anchored c` = webpki finds a path from `c` to one of
+the trust anchors (the peers' pinned certificates); `key` = the private key the client signs
+CertificateVerify with. Only the head is looked at: the tail is never validated. -/
+def handshakeChain {Cert Key : Type} [DecidableEq Key] (setup : TlsSetup) (keyOf : Cert → Key) (anchored : Cert → Bool)
+    (key : Key) (chain : List Cert) : Option (List Cert) :=
+  if !setup.verifierInstalled then some []
+  else match chain with
+    | [] => if setup.clientAuthOptional then some [] else Option.none
+    | ee :: rest => if keyOf ee == key && anchored ee then some (ee :: rest) else Option.none
+
+/-- Outcome of one request over a fresh connection, with the identity the request was processed
+under (`ClientIdentity` extension seen by the handler) when a handler ran. -/
+structure ChainResp (Ident : Type) where
+  resp : LiveResp
+  attributed : Option Ident
+  deriving DecidableEq, Repr
+
+/-- One HTTPS request from a client presenting `chain` and holding `key`, to a server of flavor `f`
+started through `arm`; `accept` is the rule turning `peer_certificates()` into an identity. -/
+def serveChainWith {Cert Key Ident : Type} [DecidableEq Key]
+    (accept : (Option Cert → Option Ident) → List Cert → Option Ident)
+    (setup : TlsSetup) (f : Flavor) (routes : List Entry) (arm : StartArm)
+    (identify : Option Cert → Option Ident) (keyOf : Cert → Key) (anchored : Cert → Bool)
+    (key : Key) (chain : List Cert) (header : Option (Option Ident)) (path : List String) (m : Method) : ChainResp Ident :=
+  if !arm.tlsAcceptor then ⟨.connErr, none⟩      -- an https client cannot talk to a plain-HTTP server
+  else match handshakeChain setup keyOf anchored key chain with
+    | Option.none => ⟨.connErr, none⟩
+    | some presented =>
+      match deriveIdentity arm { cert := accept identify presented, header := header } with
+      | .rejected => ⟨.rejected, none⟩
+      | .ext id =>
+        let r := respond routes { path := path, method := m,
+                                  helperId := (f == .helper) && id.isSome,
+                                  shardId := (f == .shard) && id.isSome }
+        ⟨.resp r, match r with | .handled _ => id | _ => none⟩
+
+/-- … with the code's rule (`acceptFirst`) and the regenerated `rustls_config` setup. -/
+def serveChain {Cert Key Ident : Type} [DecidableEq Key] (f : Flavor) (routes : List Entry) (arm : StartArm)
+    (identify : Option Cert → Option Ident) (keyOf : Cert → Key) (anchored : Cert → Bool)
+    (key : Key) (chain : List Cert) (header : Option (Option Ident)) (path : List String) (m : Method) : ChainResp Ident :=
+  serveChainWith acceptFirst IpaVerif.Generated.Routes.tlsSetup f routes arm identify keyOf anchored key chain header path m
+
+/-! ### The certificates of the test networks (suite `c20_live`) -/
+
+/-- `onFile i` = test certificate `i` byte for byte; `reissued i` = a fresh self-signed certificate for
+the key of test certificate `i` with the same subject (other serial number: other bytes); `leaf i` =
+a certificate for a FRESH key (another subject), issued with the key and subject of test certificate
+`i` (what the holder of key `i` can mint at will). -/
+inductive TestCert where
+  | onFile (i : Nat)
+  | reissued (i : Nat)
+  | leaf (i : Nat)
+  deriving DecidableEq, Repr
+
+/-- the key a certificate certifies (`100 + i`: the fresh key of `leaf i`) -/
+def TestCert.key : TestCert → Nat
+  | .onFile i => i
+  | .reissued i => i
+  | .leaf i => 100 + i
+
+/-- the key (and subject) that signed it -/
+def TestCert.signer : TestCert → Nat
+  | .onFile i => i
+  | .reissued i => i
+  | .leaf i => i
+
+/-- `peers` of the suite's servers: MPC = helpers A, B with certificates 0, 1 and helper C without;
+shard = shards 0, 1 with certificates 0, 1. -/
+def testPeers : Flavor → List (Nat × Option TestCert)
+  | .helper => [(0, some (.onFile 0)), (1, some (.onFile 1)), (2, none)]
+  | .shard => [(0, some (.onFile 0)), (1, some (.onFile 1))]
+
+/-- webpki: a path exists iff the certificate was signed by the key of a pinned certificate with that
+certificate's subject as issuer (a trust anchor is subject + key; no CA constraint is checked on
+it) — true for the pinned certificate itself, for one re-issued for its key, and for a leaf minted
+with its key. -/
+def testAnchored (f : Flavor) (c : TestCert) : Bool :=
+  (testPeers f).any (fun p => p.2 == some (.onFile c.signer))
+
 end IpaVerif.Auth
